@@ -255,7 +255,7 @@ func runC06(t *testing.T, sc C06Scenario, keep bool) *core.Result {
 				} else {
 					plan.DelayBefore = time.Duration(o.DelayMs) * time.Millisecond
 				}
-				m.PushPlan(plan)
+				m.PlanNext(plan, m.Context)
 				var rerr error
 				if sc.ViaChan {
 					before := m.Reloads
